@@ -1135,7 +1135,14 @@ func (env *LEnv) checkLimitsSlow(ctx context.Context) *LVal {
 // Deprecated: Use EvalContext for cancellation and timeout support.
 func (env *LEnv) Eval(v *LVal) *LVal {
 	defer env.Runtime.beginEval()()
-	return env.eval(env.evalCtx, v)
+	// An operator or builtin that evaluates one of its sub-forms through Eval
+	// keeps running at its own call expression: an error it raises afterwards
+	// (assert, a malformed let binding, the dotimes count) is located there,
+	// not at whichever sub-form happened to be evaluated last.
+	loc := env.loc
+	r := env.eval(env.evalCtx, v)
+	env.loc = loc
+	return r
 }
 
 // eval is the core evaluation implementation.  It evaluates v in the context
